@@ -1,11 +1,13 @@
 """C23 — string and bracket-string literals: escape table, prefix predicate, newline normalisation, raw handling."""
 import ast
 
-from .. import pyq, readerq
+from .. import pm, pyq, readerq
 from ..pysrc import dotted, fold, norm
 from ..readerq import HR
 
 # Python language reference, "String and Bytes literals": recognised escape sequences (first character after the backslash)
+CANON = True
+
 PY_ESCAPES_COMMON = set("\n\\'\"abfnrtv01234567x")
 PY_ESCAPES_STR_ONLY = set("NuU")
 
@@ -25,7 +27,9 @@ def check(ctx, src):
     chk = pyq.contains(qc, lambda n: isinstance(n, ast.If) and pyq.contains(n.body, lambda x: isinstance(x, ast.Raise) and "invalid escape sequence" in norm(x)) is not None)
     ctx.require(chk is not None, "escape check not found")
     conj = [norm(v) for v in chk.test.values] if isinstance(chk.test, ast.BoolOp) and isinstance(chk.test.op, ast.And) else []
-    ctx.check(len(conj) == 3 and conj[0] == "escaping" and conj[1] == "'r' not in prefix", "STR-ESCAPES", f"{HR}|quote_closing|conditions", f"the escape check runs under {conj[:2]}", HR, chk.lineno,
+    toggle = pm.find(qc, "esc = not esc")
+    esc = toggle.targets[0].id if toggle is not None else None
+    ctx.check(len(conj) == 3 and esc is not None and str(conj[0]) == esc and conj[1] == "'r' not in prefix", "STR-ESCAPES", f"{HR}|quote_closing|conditions", f"the escape check runs under {conj[:2]}", HR, chk.lineno,
               witness='r"\\d" is rejected / "\\d" is accepted', detail="escaping and 'r' not in prefix")
     cmpn = chk.test.values[2] if len(conj) == 3 else None
     ok = False
@@ -62,14 +66,12 @@ def check(ctx, src):
               "CR/CRLF normalisation must be an unconditional top-level statement that precedes bytes encoding and escape decoding", HR, rc.lineno,
               witness='a literal containing CR LF keeps the CR, or "\\\\\\r\\n" decodes differently from Python', detail="normalise; encode; decode")
     if i_r is not None:
-        t = " ".join(ast.unparse(stmts[i_r]).split())
-        ctx.check("codecs.escape_decode(res)[0]" in t and "res.encode('ISO-8859-1', errors='backslashreplace').decode('unicode_escape')" in t, "STR-RAW", f"{HR}|read_chars_until|decode",
+        ctx.check(pm.find(stmts[i_r], "codecs.escape_decode(res)[0]") is not None and pm.find(stmts[i_r], "res.encode('ISO-8859-1', errors='backslashreplace').decode('unicode_escape')") is not None, "STR-RAW", f"{HR}|read_chars_until|decode",
                   "escape decoding must use escape_decode for bytes and unicode_escape (via Latin-1/backslashreplace) for str, only without `r`", HR, rc.lineno, detail="decode unless raw")
     if i_b is not None:
-        t = " ".join(ast.unparse(stmts[i_b]).split())
-        ctx.check("res = res.encode('ascii')" in t and "bytes can only contain ASCII literal characters" in t, "STR-RAW", f"{HR}|read_chars_until|bytes ascii", "bytes literals must be ASCII-only", HR, rc.lineno, detail="encode('ascii')")
+        ctx.check(pm.find(stmts[i_b], "res = res.encode('ascii')") is not None and pyq.contains(stmts[i_b], lambda x: isinstance(x, ast.Raise)) is not None, "STR-RAW", f"{HR}|read_chars_until|bytes ascii", "bytes literals must be ASCII-only", HR, rc.lineno, detail="encode('ascii')")
     loop = next((s for s in stmts if isinstance(s, ast.For)), None)
-    ctx.check(loop is not None and norm(loop.iter) == "self.chars()" and "s = s[:-n_closing_chars]" in " ".join(ast.unparse(loop).split()), "STR-ROUTE", f"{HR}|read_chars_until|loop", "characters are read with chars() and the closing delimiter is cut off", HR, rc.lineno, detail="chars(); strip closer")
+    ctx.check(loop is not None and norm(loop.iter) == "self.chars()" and pm.find(loop, "n = closing(c)\nif n:\n    s = s[:-n]\n    break") is not None, "STR-ROUTE", f"{HR}|read_chars_until|loop", "characters are read with chars() and the closing delimiter is cut off", HR, rc.lineno, detail="chars(); strip closer")
     # bracket strings
     bs = rq.methods["bracketed_string"][1]
     t = [norm(s) for s in bs.body]
@@ -79,7 +81,7 @@ def check(ctx, src):
     ctx.check(norm(bs.body[-1]) == "return self.read_string_until(delim_closing, 'r', fstring_mode, brackets=delim)", "STR-BRACKET", f"{HR}|bracketed_string|raw", "bracket strings must be read raw with their delimiter recorded", HR, bs.lineno,
               witness="#[[a\\nb]] decodes the backslash escape", detail="prefix 'r', brackets=delim")
     dl = next((s for s in bs.body if isinstance(s, ast.For)), None)
-    ctx.check(dl is not None and norm(dl.iter) == "self.chars()" and "if c == '[': break" in " ".join(ast.unparse(dl).split()), "STR-BRACKET", f"{HR}|bracketed_string|delimiter", "the delimiter is the text up to the next `[`", HR, bs.lineno, detail="until '['")
+    ctx.check(dl is not None and norm(dl.iter) == "self.chars()" and pm.find(dl, "if c == '[':\n    break") is not None, "STR-BRACKET", f"{HR}|bracketed_string|delimiter", "the delimiter is the text up to the next `[`", HR, bs.lineno, detail="until '['")
     ctx.assume("the closing-delimiter matcher `delim_closing` is a small state machine whose equivalence to `find ]DELIM]` is value-level and not decided here")
     ctx.floor("STR-RAW", 5)
 
